@@ -4,7 +4,7 @@ import RpmVerif.Model.ShaWriter
 namespace RpmVerif.Driver.C08
 open RpmVerif.Hdr RpmVerif.Bld RpmVerif.Driver RpmVerif.Driver.Bld RpmVerif.Io
 
-def ops : List String := ["build8", "shaw"]
+def ops : List String := ["build8", "shaw", "stale8"]
 
 def tok (m : List String) (k : String) : String :=
   (m.findSome? fun t => if t.startsWith (k ++ "=") then some (t.drop (k.length + 1)).toString else none).getD "<missing>"
@@ -44,6 +44,20 @@ def handle (op : String) (args : List String) (impl : String) : String :=
                else "fails:accepted-bytes-differ"
       answer m v s!"script{min (parseScript script).length 3}-{st}"
     | _, _ => badReq "args"
+  | "stale8", _ :: cfg =>
+    match parseReq cfg with
+    | none => badReq "cfg"
+    | some r =>
+      if !impl.startsWith "ok " then answer "err" (if impl == "err" then "dontcare" else "fails:" ++ impl) "build-rejected" else
+      let itoks := (impl.splitOn " ").filter (· ≠ "")
+      -- the main header is not touched by sign / clear: its digest is the digest of what the model builds,
+      -- which needs the payload digests; they are not part of this observation, so the model copies `hreal`
+      let hreal := tok itoks "hreal"
+      let m := s!"ok stale=true hsha={hreal} hreal={hreal} digests=true"
+      let v := if tok itoks "hsha" != hreal then "fails:header-digest-after-resign"
+               else if tok itoks "digests" != "true" then "fails:digests-after-resign" else "holds"
+      let _ := r
+      answer m v "stale-resign"
   | "build8", _ =>
     match parseReq args with
     | none => badReq "cfg"
